@@ -609,6 +609,17 @@ fn execute(case: &Case, ctx: &mut Ctx) -> Verdict {
                 if !m.has_node[h] && waiting[h] != 0 {
                     late_premise_got_node = true;
                 }
+                // the order in which premises are listed carries no meaning: every second insertion lists them backwards,
+                // and every third one names a premise twice
+                let (mut premises, mut premise_keys) = (premises, premise_keys);
+                if i % 2 == 1 {
+                    premises.reverse();
+                    premise_keys.reverse();
+                }
+                if i % 3 == 2 && !premises.is_empty() {
+                    premises.push(premises[0]);
+                    premise_keys.push(premise_keys[0].clone());
+                }
                 g.insert_proof(handle_of(h), keys[h].clone(), format!("rule{}", i), premises, premise_keys);
                 m.insert(h, mask);
                 dep[h] |= mask;
